@@ -71,6 +71,13 @@ CHECKS = {
         text="Every truncation point n of every explored image, every single overwrite of a blockLength/numInGroup/length field with {0,1,fit-1,fit+1,type max} (pairs in thorough), message and group views: returned (valid,size), no read at offset >= n (PROT_NONE page at n), no assertion, step count <= K(n+1).",
         note="Two finding classes recorded, not repaired: wire blockLength smaller than the compiled fields' extent (fields read past the validated block) and assertion-enabled builds aborting in get_header before validation.",
         design="5/C06"),
+    "C09": dict(
+        category="exploration",
+        technique="TLC enumerates Garble.tla's structured garbling actions (depth <= 2) over base schemas; every case is run through the sanitized and the plain sbeppc under the I/O shim and every recorded run is validated against SbeppcTraceC09.tla",
+        text="Ten action groups (attribute deletion, number/name garbling, element moves, reference retargeting, level-header variants, constant variants, include graphs, document damage, argv variants) at every applicable position, plus the repository's own ~340 schemas; "
+             "alarms: signal/abort/uncaught exception/sanitizer report/timeout, non-zero exit without diagnostic, files left after rejection, trace rejected by the process spec.",
+        note="Not all byte strings: the spec's structured mutation space, two edits deep. Two finding classes recorded, not repaired: 10000-deep element nesting (stack overflow) and char constants with length 2^32-1/2^64-1 (memory/time exhaustion).",
+        design="5/C09"),
     "C10": dict(
         category="model_checking",
         technique="TLC model checking of Checked.tla (Touched/Req/Pre footprints from the operational layer, outcome relation) + replay of every (image, view length n, operation) vector in checked builds with guard pages on both sides",
